@@ -87,8 +87,23 @@ def run_parallel(modname, tasks, nproc, log=print):
         for t in tasks:
             pending.add(ex.submit(_job, modname, t, None, t.get('cut'), t.get('deadline')))
         tmap = {t['name']: t for t in tasks}
+        t_start = time.time()
+        max_wall = float(os.environ.get('VERIF_MAX_WALL', '0') or 0)
         while pending:
-            done, pending = cf.wait(pending, return_when=cf.FIRST_COMPLETED)
+            done, pending = cf.wait(pending, timeout=30, return_when=cf.FIRST_COMPLETED)
+            if max_wall and time.time() - t_start > max_wall:
+                # a check must end on every tree: give up, report the exploration as incomplete (never as success)
+                total.add('errors', dict(task='<run>', error=f'wall-clock limit of {int(max_wall)} s exceeded: exploration incomplete '
+                                                             f'({len(pending)} jobs unfinished)', tb=''))
+                for p_ in list(pending):
+                    p_.cancel()
+                for proc in list(getattr(ex, '_processes', {}).values()):
+                    try:
+                        proc.terminate()
+                    except Exception:
+                        pass
+                pending = set()
+                break
             for f in done:
                 try:
                     name, acc, roots = f.result()
@@ -175,7 +190,8 @@ def main(modname):
 
     t0 = time.time()
     problems = []
-    os.environ.setdefault('VERIF_XCHECK', '40' if args.tier == 'thorough' else '6')     # cvc5 re-decides this many VC queries per worker
+    os.environ.setdefault('VERIF_XCHECK', '40' if args.tier == 'thorough' else '6')
+    os.environ.setdefault('VERIF_MAX_WALL', '7200' if args.tier == 'thorough' else '1500')   # hard end of the exploration (inconclusive, exit 2)     # cvc5 re-decides this many VC queries per worker
     # 1. Serval-style validation of the encoding: concrete inputs through the shimmed path vs plain NumPy
     val = {}
     sweep_violations = []
@@ -256,6 +272,8 @@ def main(modname):
         vc_solver_seconds=round(total.get('vc_t_solver') + total.get('vc_int_t'), 2),
         vc_build_seconds=round(total.get('vc_t_build'), 2), vc_hypothesis_products=int(total.get('vc_products')),
         path_cpu_seconds=round(total.get('t_paths'), 2))
+    if total.get('truncated'):
+        problems.append(f"{int(total.get('truncated'))} jobs were cut off by their deadline: exploration incomplete")
     cov['paths'] = dict(completed=int(total.get('paths')), dead=int(total.get('dead_paths')),
                         budget_exceeded=int(total.get('budget_paths')), truncated_jobs=int(total.get('truncated')))
     cov['reachability_marks'] = {k: int(v) for k, v in sorted(marks.items())}
